@@ -96,6 +96,8 @@ def matrix():
     cases.append(("service-self", "services: {s: {constructor: N, arguments: [\"@s\"], tags: [t], fields: {F: \"!tagged t\"}}}\n"))
     cases.append(("decorator-self", "services: {s: {constructor: N, tags: [t]}}\ndecorators:\n  - {tag: t, decorator: D, arguments: [\"@s\", \"!tagged t\"]}\n"))
     cases.append(("function-shadows-builtin", "meta: {functions: {env: \"os.Getenv\", todo: \"os.Getenv\", envInt: \"os.Getenv\"}}\nparameters: {p: \"%env(\\\"A\\\")%%todo()%\"}\n"))
+    for n in (9, 10, 11, 99, 100, 101, 1000):
+        cases.append(("errors-%d" % n, "parameters:\n" + "".join("  p%d: \"%%nofn%d()%%\"\n" % (i, i) for i in range(n))))
     cases.append(("top-level-seq", "[1, 2]\n"))
     cases.append(("top-level-scalar", "hello\n"))
     cases.append(("empty", ""))
